@@ -611,16 +611,103 @@ func (g *vfGen) attrHeavy() []byte {
 	return []byte(sb.String())
 }
 
+// names the tree builder treats specially: those resetInsertionMode switches on, and others with
+// their own rules (scope, implied end tags, raw text, formatting, forms)
+var vfResetNames = []string{"template", "table", "select", "td", "th", "tr", "tbody", "thead", "tfoot", "caption", "colgroup",
+	"html", "body", "head", "frameset"}
+var vfSpecialNames = []string{"p", "li", "dd", "dt", "button", "a", "form", "title", "textarea", "script", "style", "plaintext",
+	"option", "optgroup", "applet", "marquee", "object", "nobr", "h1", "input", "col", "noscript", "iframe", "xmp"}
+var vfSvgPoints = []string{"<desc>", "<foreignObject>", "<title>", "<foreignobject>", "<DESC>"}
+var vfMathPoints = []string{"<mi>", "<mo>", "<mn>", "<ms>", "<mtext>", "<annotation-xml encoding=\"text/html\">",
+	"<annotation-xml encoding='application/xhtml+xml'>", "<annotation-xml>"}
+// HTML constructs that make the tree builder reset its insertion mode (resetInsertionMode runs
+// on </table>, on <table> inside a table, on </template> and at EOF inside a template) or leave a
+// table / select / template mode in other ways
+var vfResetConstructs = []string{"<table></table>", "<table><table>", "<table>x</table>", "<table><tr><td>x</td></tr></table>",
+	"<template>x</template>", "<table><caption>x</table>", "<template><table></table>", "<table><td><select></select></td></table>",
+	"<select></select>", "<table></table>x", "<table><tr><td></table><p>", "<template><template></template></template>",
+	"<table><tbody></tbody></table>", "<template>", "<table><td>x</td>", "<table><colgroup></table>",
+	"<select><option>x</select>", "<table><select></select></table>", "<table><template></template></table>", "</table>",
+	"<table><caption>x</caption>", "<table><tr></tr><table>", "</template>", "<td></td><table></table>",
+	"<caption></caption>", "<select><table></table>", "<table><caption><select><tr></table>", "</select>"}
+
+// foreignNested: inside <svg> / <math>, elements NAMED after special HTML elements (they are
+// foreign elements and get none of the HTML treatment, but name-based code may mistake them),
+// an HTML / MathML-text integration point beneath them, and then HTML constructs that make the
+// tree builder reset its insertion mode while those elements are still on the stack.
+func (g *vfGen) foreignNested() []byte {
+	var sb strings.Builder
+	sb.WriteString(g.pick([]string{"", "", "", "<!DOCTYPE html>", "<table>", "<table><tr><td>", "<select>", "<template>", "<p>", "<div>", "<body>", "<a>", "<b>"}))
+	math := g.r.Intn(2) == 0
+	if math {
+		sb.WriteString(g.pick([]string{"<math>", "<math>", "<MATH>", "<math><mrow>"}))
+	} else {
+		sb.WriteString(g.pick([]string{"<svg>", "<svg>", "<SVG>", "<svg><g>"}))
+	}
+	for depth := 1 + g.r.Intn(2); depth > 0; depth-- {
+		for n := 1 + g.r.Intn(2); n > 0; n-- {
+			name := g.pick(vfResetNames)
+			if g.r.Intn(3) == 0 {
+				name = g.pick(vfSpecialNames)
+			}
+			sb.WriteString("<" + g.caseMangle(name) + ">")
+		}
+		if g.r.Intn(8) != 0 {
+			if math {
+				sb.WriteString(g.pick(vfMathPoints))
+			} else {
+				sb.WriteString(g.pick(vfSvgPoints))
+			}
+		}
+		if depth > 1 && g.r.Intn(2) == 0 {
+			// a nested foreign root below the integration point
+			math = g.r.Intn(2) == 0
+			if math {
+				sb.WriteString("<math>")
+			} else {
+				sb.WriteString("<svg>")
+			}
+		}
+	}
+	for n := 1 + g.r.Intn(3); n > 0; n-- {
+		switch g.r.Intn(6) {
+		case 0:
+			sb.WriteString(g.pick([]string{"x", " ", "<!--c-->", "&amp;", "\x00"}))
+		case 1:
+			sb.WriteString(g.endTag(g.pick(append(append([]string{"svg", "math", "desc", "mi", "foreignObject", "annotation-xml"}, vfResetNames...), vfSpecialNames...))))
+		default:
+			sb.WriteString(g.pick(vfResetConstructs))
+		}
+	}
+	return []byte(sb.String())
+}
+
+// nestedSweep: the foreignNested shape enumerated instead of drawn: input j walks through every
+// name resetInsertionMode switches on (both foreign roots each), with the integration point and
+// the reset-triggering construct stepping at co-prime strides offset by the seed.
+func (g *vfGen) nestedSweep(j, seed int) []byte {
+	name := vfResetNames[(j/2+seed)%len(vfResetNames)]
+	root, points := "<svg>", vfSvgPoints[:3]
+	if j%2 == 1 {
+		root, points = "<math>", vfMathPoints[:7]
+	}
+	pre := []string{"", "", "<div>", "<table><tr><td>", "<template>", "<select>"}[(j/30+seed)%6]
+	return []byte(pre + root + "<" + name + ">" + points[(j/2+seed*7)%len(points)] +
+		vfResetConstructs[(j*5+seed*3)%len(vfResetConstructs)] + g.pick([]string{"", "x", "</" + name + ">", "<p>", "</svg>", "</math>"}))
+}
+
 // input: the mixed population used by all three properties
 func (g *vfGen) input() []byte {
 	switch x := g.r.Intn(20); {
-	case x < 7:
+	case x < 6:
 		return g.grammar()
-	case x < 11:
+	case x < 10:
 		return g.treeish()
 	case x < 12:
+		return g.foreignNested()
+	case x < 13:
 		return g.dense()
-	case x < 14:
+	case x < 15:
 		return append([]byte(nil), g.corpus[g.r.Intn(len(g.corpus))]...)
 	case x < 18:
 		return g.mutate(g.corpus[g.r.Intn(len(g.corpus))])
@@ -1397,12 +1484,15 @@ func TestVerifHtmlTree(t *testing.T) {
 	n := env.Int("inputs", 120)
 	nlong := env.Int("long", 2)
 	ndeep := env.Int("deep", 1)
-	total := n + nlong + ndeep
+	nnest := env.Int("nested", 60)
+	total := n + nlong + ndeep + nnest
 	for idx := 1; idx <= total && !env.Hung; idx++ {
 		r := env.Rand(int64(idx))
 		g := vfNewGen(r)
 		var in []byte
 		switch {
+		case idx > n+nlong+ndeep:
+			in = g.nestedSweep(idx-(n+nlong+ndeep)-1, int(env.Seed))
 		case idx > n+nlong:
 			in = g.deep()
 		case idx > n:
